@@ -276,7 +276,11 @@ func (h *c01Hist) ser(api, k, o, hasher int) {
 	h.sers = append(h.sers, c01HistSer{h.snapshot(), k, eff, api})
 	seen := map[int]bool{}
 	h.reach(k, seen)
-	for j := range seen {
+	// in slot order (map iteration order must not reach the generated cases)
+	for j := 0; j < h.K; j++ {
+		if !seen[j] {
+			continue
+		}
 		n := h.nodes[j]
 		n.Refs = append([]int{}, n.Refs...)
 		h.former = append(h.former, n)
